@@ -195,6 +195,10 @@ pub fn run(args: &Args) -> i32 {
     for v in &variants {
         for b in 0..w.bases.len() {
             for h in &hists {
+                // the file variant replays every case from scratch: start states of depth <= 1 only
+                if !v.is_memory() && h.len() > 1 {
+                    continue;
+                }
                 items.push((*v, b, h.clone()));
             }
         }
